@@ -327,7 +327,8 @@ for _p in ('C14', 'C10'):
 PROPS['C12']['contracts'] = PROPS['C12']['contracts'] + BASE[1:]
 # SET OF / SEQUENCE OF ANY: wrapping is decided per element (C18-m8b)
 for _p in ('C18', 'C01'):
-    PROPS[_p]['contracts'] = PROPS[_p]['contracts'] + [(E, 'ber.encoder::SequenceOfEncoder._encodeComponents[value-object,any-size,wrap-type]')]
+    PROPS[_p]['contracts'] = PROPS[_p]['contracts'] + [(E, 'ber.encoder::SequenceOfEncoder._encodeComponents[value-object,any-size,wrap-type]'),
+                                                       (E, 'ber.encoder::_isValueOf')]
 # the caller's openTypes map is only read (C12-m8b)
 PROPS['C12']['contracts'] = PROPS['C12']['contracts'] + [
     (D, 'ber.decoder::ConstructedPayloadDecoderBase.valueDecoder@open-types[any-size]'),
